@@ -15,6 +15,48 @@ Hypothesis Vring : ring_theory v0 v1 vadd vmul vsub vopp (@eq V).
 Hypothesis isz_spec : forall v, isz v = true <-> v = v0.
 Add Ring Vr01w3 : Vring.
 
+(* ------------------------------------------------------------------ ktensor.full with the rank-0 branch (/repo d9f07bf) *)
+Lemma den_dense_zeros s i : den_dense v0 (dense_zeros v0 s) i = v0.
+Proof.
+  unfold den_dense, dense_zeros. cbn [dshape ddata]. destruct (inb s i); [|reflexivity].
+  apply nth_repeat.
+Qed.
+
+Lemma wf_dense_zeros s : wf_dense (dense_zeros v0 s).
+Proof. unfold wf_dense, dense_zeros. cbn. apply repeat_length. Qed.
+
+(* no component: the zero tensor of the shape the factor matrices give, whatever else holds of K *)
+Theorem ktensor_full_code_rank0 (K : ktensor V) : krank K = 0 ->
+  ktensor_full_code v0 vadd vmul K = Some (dense_zeros v0 (kshape K)) /\
+  wf_dense (dense_zeros v0 (kshape K)) /\
+  (forall i, den_dense v0 (dense_zeros v0 (kshape K)) i = den_k v0 v1 vadd vmul K i) /\
+  (forall i, den_k v0 v1 vadd vmul K i = v0) /\
+  dense_zeros v0 (kshape K) = ktensor_full_spec v0 v1 vadd vmul K.
+Proof.
+  intros HR.
+  assert (Hk : forall i, den_k v0 v1 vadd vmul K i = v0).
+  { intros i. unfold den_k. rewrite HR. destruct (inb (kshape K) i); reflexivity. }
+  split; [unfold ktensor_full_code; now rewrite HR|]. split; [apply wf_dense_zeros|].
+  split; [intros i; now rewrite den_dense_zeros, Hk|]. split; [exact Hk|].
+  apply (dense_ext v0); [apply wf_dense_zeros|apply wf_tabulate|reflexivity|].
+  intros i Hi. change (dshape (dense_zeros v0 (kshape K))) with (kshape K) in Hi.
+  unfold ktensor_full_spec. now rewrite den_dense_zeros, den_tabulate, Hk.
+Qed.
+
+(* ktensor.full as the code is, every N >= 1 and EVERY rank (0 included) *)
+Theorem ktensor_full_code_correct (K : ktensor V) :
+  rows_ok V (krank K) (kfactors K) -> 1 <= length (kfactors K) ->
+  exists D, ktensor_full_code v0 vadd vmul K = Some D /\ wf_dense D /\ dshape D = kshape K /\
+    (forall i, den_dense v0 D i = den_k v0 v1 vadd vmul K i) /\
+    D = ktensor_full_spec v0 v1 vadd vmul K.
+Proof.
+  intros Hok HN. destruct (Nat.eq_dec (krank K) 0) as [HR|HR].
+  - destruct (ktensor_full_code_rank0 K HR) as (E & W & Hd & _ & HS).
+    exists (dense_zeros v0 (kshape K)). repeat (split; auto).
+  - destruct (ktensor_full_correct V v0 v1 vadd vmul vsub vopp Vring K Hok HN) as (D & E & W & Hs & Hd & HS).
+    exists D. unfold ktensor_full_code. apply Nat.eqb_neq in HR. rewrite HR. repeat (split; auto).
+Qed.
+
 (* ------------------------------------------------------------------ ktensor.to_tenmat = full().to_tenmat(...) *)
 Theorem ktensor_to_tenmat_correct (K : ktensor V) rd cd cy :
   rows_ok V (krank K) (kfactors K) -> 1 <= length (kfactors K) -> request_ok (length (kfactors K)) rd cd ->
@@ -25,7 +67,7 @@ Theorem ktensor_to_tenmat_correct (K : ktensor V) rd cd cy :
     tenmat_to_tensor v0 M = ktensor_full_spec v0 v1 vadd vmul K.
 Proof.
   intros Hok HN Hreq.
-  destruct (ktensor_full_correct V v0 v1 vadd vmul vsub vopp Vring K Hok HN) as (D & E & W & Hs & Hden & HD).
+  destruct (ktensor_full_code_correct K Hok HN) as (D & E & W & Hs & Hden & HD).
   assert (HL : length (kshape K) = length (kfactors K)) by (unfold kshape; apply map_length).
   destruct (gather_wrap_dims_partition (length (kfactors K)) rd cd cy Hreq) as (r & c & Eg & Hp & _).
   assert (Hp' : is_perm (r ++ c) (length (dshape D))) by (now rewrite Hs, HL).
@@ -41,7 +83,7 @@ Qed.
 (* ------------------------------------------------------------------ double() = full().double() *)
 Theorem double_aliases_correct :
   (forall K : ktensor V, rows_ok V (krank K) (kfactors K) -> 1 <= length (kfactors K) ->
-     ktensor_double v0 vadd vmul K = ktensor_full_impl v0 vadd vmul K /\
+     ktensor_double v0 vadd vmul K = ktensor_full_code v0 vadd vmul K /\
      ktensor_double v0 vadd vmul K = Some (ktensor_full_spec v0 v1 vadd vmul K)) /\
   (forall T : ttensor V, wf_dense (tcore T) -> length (dshape (tcore T)) = length (tfactors T) ->
      ttensor_double v0 vadd vmul T = ttensor_full_impl v0 vadd vmul T /\
@@ -53,7 +95,7 @@ Theorem double_aliases_correct :
        forall i, inb s i = true -> den_dense v0 R i = den_sum v0 vadd (map (part_den v0 v1 vadd vmul) parts) i).
 Proof.
   split; [|split].
-  - intros K Hok HN. destruct (ktensor_full_correct V v0 v1 vadd vmul vsub vopp Vring K Hok HN) as (D & E & _ & _ & _ & HD).
+  - intros K Hok HN. destruct (ktensor_full_code_correct K Hok HN) as (D & E & _ & _ & _ & HD).
     unfold ktensor_double. rewrite E. cbn. split; [reflexivity|]. now rewrite HD.
   - intros T W HN. destruct (ttensor_full_impl_correct V v0 v1 vadd vmul vsub vopp Vring T W HN) as (_ & W' & Hs & Hd).
     unfold ttensor_double, dense_double. auto.
